@@ -353,24 +353,28 @@ def stats_from_messages(msgs):
     return st
 
 def extract_nondets(trace):
-    vals = []
+    """nondet values in call order: rt.c logs every v_nondet_* result into v_trace_vals[k]; the (unsliced) trace contains
+    one assignment per logged value."""
+    vals = {}
+    def num(v):
+        d = v.get("data")
+        if d is None: d = v.get("binary")
+        if isinstance(d, str):
+            if d in ("TRUE", "true"): return 1
+            if d in ("FALSE", "false"): return 0
+            try: return int(d)
+            except ValueError:
+                try: return int(v.get("binary", "0"), 2)
+                except Exception: return 0
+        return int(d or 0)
     for s in trace or []:
-        if s.get("stepType") == "assignment" and s.get("lhs") == "r":
-            fn = (s.get("sourceLocation") or {}).get("function", "")
-            if fn.startswith("v_nondet_"):
-                v = s.get("value", {})
-                d = v.get("data")
-                if d is None: d = v.get("binary")
-                if isinstance(d, str):
-                    if d in ("TRUE", "true"): d = 1
-                    elif d in ("FALSE", "false"): d = 0
-                    else:
-                        try: d = int(d)
-                        except ValueError:
-                            try: d = int(v.get("binary", "0"), 2)
-                            except Exception: d = 0
-                vals.append(int(d) & ((1 << 64) - 1))
-    return vals
+        if s.get("stepType") != "assignment": continue
+        m = re.match(r"v_trace_vals\[(\d+)l*\]$", s.get("lhs", "") or "")
+        if m:
+            vals[int(m.group(1))] = num(s.get("value", {})) & ((1 << 64) - 1)
+    if not vals:
+        return []
+    return [vals.get(k, 0) for k in range(max(vals) + 1)]
 
 # ----------------------------------------------------------------------------- native replay
 _native_lock = threading.Lock()
@@ -613,7 +617,8 @@ def race(gb, entry, job, solvers, timeout, mem):
 def get_trace(job, tier, shard, prop):
     timeout = 900
     mem = max(job.get("mem_gb", 6), 8)
-    cmd = cbmc_cmd(shard["gb"], shard["entry"], job, "minisat" if shard.get("solver") in (None, "cvc5", "z3") else shard["solver"], ["--trace", "--property", prop, "--stop-on-fail"])
+    tjob = dict(job); tjob["slice"] = False   # the unsliced trace contains every logged nondet value
+    cmd = cbmc_cmd(shard["gb"], shard["entry"], tjob, "minisat" if shard.get("solver") in (None, "cvc5", "z3") else shard["solver"], ["--trace", "--property", prop, "--stop-on-fail"])
     r = run_cbmc_once(cmd, timeout, mem)
     pr = parse_cbmc(r["out"])
     for x in pr["results"]:
